@@ -37,4 +37,42 @@ def jobs(tier, seed):
             kw = dict(contracts={sc: c, 'slider_attack_3': SL3}, nobody=['slider_attack_3'], replace=['slider_attack_3'])
         out.append(Job('bound/' + nm, TUS, [sc, ap], h, 'h_b', enforce=sc, spec=SPEC + ['geom.h'], post_spec=POST, timeout=1500,
                        unwindset=loops_unwind([('Endgame_', 11)]), note='K%s evaluator stays strictly inside the non-mate range' % nm[1:], **kw))
+    # ---- purity of what goes into the pawn cache: the cached quantity (score_pawns_for_side<side>) depends on nothing but the pawn structure
+    #      (what Position::pawn_hash covers, C04).  Two-run (self-composition) obligation on the real function: two arbitrary positions and two
+    #      arbitrary scorer objects that agree on the pawn lists and pawn sets of both colours give the same score.
+    #      Both runs read the pawn sets through Position::pieces(colour, PAWN); that accessor is applied in stub form with a contract that returns the
+    #      ghost pawn set G_PAWNS[colour] and REQUIRES it to be the position's real pawn set - so the two runs compute on the same symbols (two
+    #      separately chosen positions merely constrained to be equal leave the solver to prove 64-bit multipliers equivalent: did not finish).
+    #      The two Score multiplications are applied as an UNINTERPRETED function of their operands (sound for a determinism property: equal operands
+    #      give equal products whatever multiplication is); the group therefore carries no signed-overflow obligations.
+    PTUS14 = tu('score.cpp', 'types.cpp', 'position.cpp', 'bithacks.cpp', 'move_bitboards.cpp')
+    PCK = 'Position__pieces__Color_PieceKind'
+    c_pck = ('__CPROVER_requires(c <= 1 && p == 1 && G_PAWNS[c] == (self->_by_color_bb[c] & self->_by_piece_kind_bb[1]))\n__CPROVER_assigns()\n'
+             '__CPROVER_ensures(__CPROVER_return_value == G_PAWNS[c])\n')
+    c_m1 = ('__CPROVER_requires(1)\n__CPROVER_assigns()\n__CPROVER_ensures(__CPROVER_return_value.mg == __CPROVER_uninterpreted_mul64($1, $2.mg) && __CPROVER_return_value.eg == __CPROVER_uninterpreted_mul64($1, $2.eg))\n')
+    c_m2 = ('__CPROVER_requires(1)\n__CPROVER_assigns()\n__CPROVER_ensures(__CPROVER_return_value.mg == __CPROVER_uninterpreted_mul64(self->mg, $1.mg) && __CPROVER_return_value.eg == __CPROVER_uninterpreted_mul64(self->eg, $1.eg))\n')
+    for side in (0, 1):
+        fn = 'PositionScorer__score_pawns_for_side_%d' % side
+        h = ('struct Position nondet_Position(void); struct PositionScorer nondet_PositionScorer(void); uint64_t nondet_u64(void);\n'
+             'void h_pp(void) {\n  struct Position P1 = nondet_Position(); struct Position P2 = nondet_Position(); struct PositionScorer S1 = nondet_PositionScorer(), S2 = nondet_PositionScorer();\n'
+             '  G_PAWNS[0] = nondet_u64(); G_PAWNS[1] = nondet_u64();\n'
+             '  __CPROVER_assume(P1._piece_count[1] >= 0 && P1._piece_count[1] <= 8 && P1._piece_count[7] >= 0 && P1._piece_count[7] <= 8);\n'
+             '  for (int pc = 1; pc <= 7; pc += 6) for (int i = 0; i < 10; i++)\n'
+             '    if (i < P1._piece_count[pc]) __CPROVER_assume(P1._piece_position[pc][i] >= 8 && P1._piece_position[pc][i] < 56);   /* pawns stand on ranks 2..7 */\n'
+             '  /* same pawn structure (what Position::pawn_hash covers): pawn lists copied, pawn sets of both colours equal to the ghost sets; everything else arbitrary in both */\n'
+             '  P2._piece_count[1] = P1._piece_count[1]; P2._piece_count[7] = P1._piece_count[7];\n'
+             '  for (int i = 0; i < 10; i++) { P2._piece_position[1][i] = P1._piece_position[1][i]; P2._piece_position[7][i] = P1._piece_position[7][i]; }\n'
+             '  for (int c = 0; c < 2; c++) __CPROVER_assume((P1._by_color_bb[c] & P1._by_piece_kind_bb[1]) == G_PAWNS[c] && (P2._by_color_bb[c] & P2._by_piece_kind_bb[1]) == G_PAWNS[c]);\n'
+             '  struct Score a = %s(&S1, &P1), b = %s(&S2, &P2);\n' % (fn, fn) +
+             '  __CPROVER_assert(a.mg == b.mg && a.eg == b.eg, "pawn score of one side is a function of the pawn structure alone (same pawn lists and pawn sets => same score)");' + CANARY + '}\n')
+        # quick tier: the white instance without the canary re-run (about 8 minutes); thorough: both colours with canary
+        out.append(Job('pawn_cache/depends_on_pawns_only_' + ('white', 'black')[side], PTUS14, [fn], h, 'h_pp', timeout=2400,
+                       contracts={PCK: c_pck, 'op_mul': c_m1, 'Score__op_mul': c_m2}, nobody=[PCK, 'op_mul', 'Score__op_mul'], stubs=[PCK, 'op_mul', 'Score__op_mul'],
+                       backend='cadical', drop_flags=['--signed-overflow-check'], gb=3,
+                       canary=(side == 1 or tier == 'thorough'), tier=('quick' if side == 0 else 'thorough'),
+                       pre_text='uint64_t G_PAWNS[2];\nint64_t __CPROVER_uninterpreted_mul64(int64_t, int64_t);\n',
+                       unwindset=loops_unwind([(fn, 9)]), route='closed-by-complete-unwinding(9): at most 8 pawns of a colour',
+                       note='two-run obligation: score_pawns_for_side<%s> gives equal results on any two positions (and scorer states) with the same pawn structure - the quantity cached under the pawn key depends only on what the key covers (Score multiplications uninterpreted, hence no overflow obligations in this group)' % ('WHITE', 'BLACK')[side]))
+    # longest first
+    out.sort(key=lambda j: 0 if j.name.startswith('pawn_cache') else 1)
     return out
